@@ -882,7 +882,10 @@ impl Xot {
         replaced_node.get().remove_subtree(self.arena_mut());
         // now insert the replacing node
         if let Some(previous_node) = previous_node {
-            self.insert_after(previous_node, replacing_node)?;
+            // if the replacing node is the previous sibling it is in place already
+            if previous_node != replacing_node {
+                self.insert_after(previous_node, replacing_node)?;
+            }
         } else {
             self.prepend(parent, replacing_node)?;
         }
